@@ -144,6 +144,26 @@ let run_idx mo jo impl secs =
                (int_of_string wlo <= !t && !t <= int_of_string last)
            end
          | _ -> ()) lines;
+       (* C04 on the upper levels of the implementation's own index: level l+1 is a segmentation of level l's segment keys
+          with EpsilonRecursive, so it has (up to the closing/extra-segment bookkeeping) the minimum number of segments, which
+          the model's segmentation of those keys attains (C04_sequential_optimal / C04_chunked_near_optimal) *)
+       if Array.length offs > 2 && epsrec > 0 then begin
+         for l = 0 to Array.length offs - 3 do
+           let b = offs.(l) and e = offs.(l + 1) - 1 in
+           let keys = List.filter (fun k -> ZA.lt k (zz_of_z sentinel)) (Array.to_list (Array.sub segk b (max 0 (e - b)))) in
+           let have = offs.(l + 2) - offs.(l + 1) - 1 in
+           (match keys with
+            | [] -> ()
+            | _ ->
+              let zkeys = List.map z_of_zz keys in
+              (match make_segmentation_par cfg.c_kt par_threshold cfg.c_par (zi (List.length zkeys)) cfg.c_epsrec zkeys with
+               | Ok ((_, _), cnt) ->
+                 judge jo "C04" id ("level " ^ string_of_int (l + 1) ^ " of the index has " ^ string_of_int have ^
+                                    " segments; a minimal segmentation of level " ^ string_of_int l ^ "'s keys with EpsilonRecursive has " ^ zout cnt)
+                   (have <= iz cnt + 1 + (iz cfg.c_par - 1))
+               | Err _ -> ()))
+         done
+       end;
        List.iter (fun toks ->
          match toks with
          | ["Q"; q; pos; lo; hi] ->
